@@ -4,7 +4,7 @@ import PtVerif.Proofs.DecayTime
 
 Model: `decayTime` / `decayTimeOfData` / `findRoot` / `calcActivation` of
 `PtVerif.Model.Activation`, the code of `Sample.decay_time`, `find_root` and
-`Sample.calculate_activation` **with `fixes/activation-decay-time.patch` applied** (the solve
+`Sample.calculate_activation` **with `fixes/activation-2-decay-time.patch` applied** (the solve
 works from the activity at removal that `calculate_activation` records; `f(0) <= 0` early exit;
 `-La*Ia` derivative; `max(t, 0.)`).  Tied to the source by `harness/ptv/props/C15.py`.
 
